@@ -75,7 +75,8 @@ RealLayouts == {c \in Layouts : Exists(c)}
 (*                touched = set of <<level, file>> whose bytes changed,    *)
 (*                saw = set of <<level, file>> markers a read displayed    *)
 (*   lock_after   the resolved store has a lock file after the commands    *)
-(*   init         [exit, changed_existing, same_items]                     *)
+(*   init         [exit, changed_existing, same_items] over three spellings *)
+(*                of the request: `init`, `init .`, `init <abs dir>`        *)
 (***************************************************************************)
 (*   link_wheres  (link layouts) what `where` names under each link spelling *)
 Pairs(s) == {<<s[k][1], s[k][2]>> : k \in DOMAIN s}
